@@ -776,6 +776,18 @@ def systematic_mutations(schema, sc):
     pos = positions(schema, spec)
     for coll, ident, a, sub, label in pos:
         muts.append([("misspell", coll, ident, a["name"], sub, label + "_x")])
+        # near misses that a sloppy lookup could accept: a proper prefix, and for parameter labels the group path
+        # (dotted prefix) of an existing label and a child of it (seeded change C20-3: `Parameters.has` true for groups)
+        near = []
+        if len(label) > 1:
+            near.append(label[:-1])
+        if a["kind"] == "param":
+            if "." in label:
+                near.append(label.rsplit(".", 1)[0])
+            near.append(label + ".x")
+        for nl in near:
+            if nl != label:
+                muts.append([("misspell", coll, ident, a["name"], sub, nl)])
         if a["struct"] == "scalar":
             muts.append([("set", coll, ident, a["name"], "")])
             if a["optional"]:
